@@ -35,6 +35,7 @@ import copy
 from dataclasses import dataclass, field
 from typing import Optional, Sequence
 
+from .loopnorm import _Fuse
 from .model import AnalysisError, FuncInfo, Model, body_without_docstring
 
 Cond = tuple  # of (expr, polarity)
@@ -94,6 +95,30 @@ class _Subst(ast.NodeTransformer):
         if isinstance(node.ctx, ast.Load) and node.id in self.env and node.id not in self.shadow:
             return copy.deepcopy(self.env[node.id])
         return node
+
+    def visit_Attribute(self, node: ast.Attribute):
+        # store-to-load forwarding: `self.x = V` ... `self.x` reads V (until something may change it)
+        if isinstance(node.ctx, ast.Load) and _plain_chain(node):
+            try:
+                k = "@" + ast.unparse(node)
+            except Exception:
+                k = ""
+            if k in self.env and not (_chain_root(node) in self.shadow):
+                return copy.deepcopy(self.env[k])
+        return self.generic_visit(node)
+
+    def visit_Call(self, node: ast.Call):
+        # the receiver of a method call is an object, not a value: never forward a stored value into it
+        if isinstance(node.func, ast.Attribute) and isinstance(node.func.value, ast.Attribute):
+            new = copy.copy(node)
+            f2 = copy.copy(node.func)
+            plain = {k: v for k, v in self.env.items() if not (isinstance(k, str) and k.startswith("@"))}
+            f2.value = _Subst(plain, self.shadow).visit(node.func.value)
+            new.func = f2
+            new.args = [self.visit(a) for a in node.args]
+            new.keywords = [ast.keyword(arg=k.arg, value=self.visit(k.value)) for k in node.keywords]
+            return new
+        return self.generic_visit(node)
 
     def _comp(self, node):
         bound = set()
@@ -224,6 +249,7 @@ class _Walker:
     # -- expressions -------------------------------------------------------------------------
     def ev(self, e: ast.AST, env: dict) -> ast.AST:
         new = _Subst(env).visit(copy.deepcopy(e))
+        new = _Fuse().visit(new)  # a comprehension over a substituted comprehension
         self._tag(new)
         return new
 
@@ -244,7 +270,7 @@ class _Walker:
                 else:
                     n._ver = 0  # type: ignore[attr-defined]
 
-    def _record_calls(self, e: ast.AST, cond: Cond, st: ast.AST) -> None:
+    def _record_calls(self, e: ast.AST, cond: Cond, st: ast.AST, env: Optional[dict] = None) -> None:
         for c in _calls_outer_first(e):
             if isinstance(c.func, ast.Name) and c.func.id in PURE_CALLS:
                 continue
@@ -259,6 +285,8 @@ class _Walker:
                 except Exception:
                     continue
                 self.callver[k] = self.callver.get(k, 0) + 1
+                if env is not None:
+                    self._invalidate(env, c.func.value)
 
     # -- versions are per path: fork at a branch, join (max) where paths meet ------------------
     def _vsave(self):
@@ -297,33 +325,34 @@ class _Walker:
             if isinstance(st.value, ast.Constant):
                 return env, cond
             v = self.ev(st.value, env)
-            self._record_calls(v, cond, st)
+            self._record_calls(v, cond, st, env)
             return env, cond
         if isinstance(st, (ast.Assign, ast.AnnAssign)):
             if isinstance(st, ast.AnnAssign) and st.value is None:
                 return env, cond
             v = self.ev(st.value, env)  # type: ignore[arg-type]
-            self._record_calls(v, cond, st)
+            self._record_calls(v, cond, st, env)
             targets = st.targets if isinstance(st, ast.Assign) else [st.target]
             for t in targets:
                 self._bind(t, v, env, cond, st)
             return env, cond
         if isinstance(st, ast.AugAssign):
             v = self.ev(st.value, env)
-            self._record_calls(v, cond, st)
+            self._record_calls(v, cond, st, env)
             if isinstance(st.target, ast.Name):
                 cur = copy.deepcopy(env.get(st.target.id, _name(st.target.id)))
                 env[st.target.id] = ast.BinOp(left=cur, op=st.op, right=v)
             else:
-                t = self.ev(_as_load(st.target), env)
+                t = self.ev(_as_load(st.target), {k: x for k, x in env.items() if not k.startswith("@")})
                 t._ver = 0  # type: ignore[attr-defined]  # the location, not a read of it
+                self._invalidate(env, st.target)
                 self.flow.effects.append(Eff(cond, "aug", ast.AugAssign(target=t, op=st.op, value=v), st))
                 self._stored(t)
             return env, cond
         if isinstance(st, ast.Return):
             v = self.ev(st.value, env) if st.value is not None else None
             if v is not None:
-                self._record_calls(v, cond, st)
+                self._record_calls(v, cond, st, env)
             self.flow.returns.append(Ret(cond, v, st))
             return None
         if isinstance(st, ast.Raise):
@@ -334,7 +363,7 @@ class _Walker:
             return None
         if isinstance(st, ast.If):
             t = self.ev(st.test, env)
-            self._record_calls(t, cond, st)
+            self._record_calls(t, cond, st, env)
             v0 = self._vsave()
             r1 = self.block(st.body, dict(env), cond + ((t, True),))
             v1 = self._vsave()
@@ -352,6 +381,8 @@ class _Walker:
             e1, e2 = r1[0], r2[0]
             out = {}
             for k in list(dict.fromkeys(list(e1) + list(e2))):
+                if k.startswith("@") and not (k in e1 and k in e2):
+                    continue
                 a, b = e1.get(k, _name("UNDEF")), e2.get(k, _name("UNDEF"))
                 if a is b or ast.dump(a) == ast.dump(b):
                     out[k] = a
@@ -362,11 +393,13 @@ class _Walker:
         if isinstance(st, (ast.For, ast.AsyncFor, ast.While)):
             self.loops += 1
             k = self.loops
+            for fk in [x for x in env if x.startswith("@")]:
+                del env[fk]
             if isinstance(st, ast.While):
                 it = None
             else:
                 it = self.ev(st.iter, env)
-                self._record_calls(it, cond, st)
+                self._record_calls(it, cond, st, env)
             names = _assigned_names(st.body + st.orelse)
             tnames = _assigned_names([ast.Expr(value=st.target)]) if not isinstance(st, ast.While) else []
             for j, n in enumerate(n for n in names if n not in tnames):
@@ -376,24 +409,28 @@ class _Walker:
             inner = cond + ((_name(f"LOOP{k}"), True),)
             if isinstance(st, ast.While):
                 t = self.ev(st.test, env)
-                self._record_calls(t, inner, st)
+                self._record_calls(t, inner, st, env)
                 inner = inner + ((t, True),)
             v0 = self._vsave()
             self.block(st.body, dict(env), inner)
             if st.orelse:
                 self.block(st.orelse, dict(env), cond + ((_name(f"LOOP{k}.else"), True),))
             self._vjoin([v0, self._vsave()])
+            for fk in [x for x in env if x.startswith("@")]:
+                del env[fk]
             return env, cond
         if isinstance(st, (ast.With, ast.AsyncWith)):
             for it in st.items:
                 v = self.ev(it.context_expr, env)
-                self._record_calls(v, cond, st)
+                self._record_calls(v, cond, st, env)
                 if it.optional_vars is not None:
                     self._bind(it.optional_vars, v, env, cond, st)
             return self.block(st.body, env, cond)
         if isinstance(st, ast.Try):
             self.tries += 1
             k = self.tries
+            for fk in [x for x in env if x.startswith("@")]:
+                del env[fk]
             names = _assigned_names(st.body)
             v0 = self._vsave()
             r0 = self.block(st.body, dict(env), cond)
@@ -438,7 +475,7 @@ class _Walker:
             return env2, cond
         if isinstance(st, ast.Match):
             subj = self.ev(st.subject, env)
-            self._record_calls(subj, cond, st)
+            self._record_calls(subj, cond, st, env)
             outs = []
             mv0 = self._vsave()
             mvs: list = []
@@ -481,6 +518,19 @@ class _Walker:
             return merged, cond
         raise AnalysisError(f"symflow: unsupported statement {type(st).__name__} at {self.fn.loc(st)}")
 
+    def _invalidate(self, env: dict, t: ast.AST, include_self: bool = True) -> None:
+        """Forget forwarded attribute values that a store to / a mutating call on `t` may change."""
+        try:
+            k = ast.unparse(t)
+        except Exception:
+            k = None
+        for key in [x for x in env if isinstance(x, str) and x.startswith("@")]:
+            c = key[1:]
+            if k is None or c == k and include_self or c.startswith(k + ".") or c.startswith(k + "[") or k.startswith(c + ".") or k.startswith(c + "["):
+                if c == k and not include_self:
+                    continue
+                del env[key]
+
     def _stored(self, t: ast.AST) -> None:
         try:
             k = ast.unparse(t)
@@ -502,12 +552,24 @@ class _Walker:
                     else:
                         self._bind(a, ast.Subscript(value=copy.deepcopy(v), slice=ast.Constant(value=i), ctx=ast.Load()), env, cond, st)
         elif isinstance(t, (ast.Attribute, ast.Subscript)):
-            tt = self.ev(_as_load(t), env)
+            tt = self.ev(_as_load(t), {k: x for k, x in env.items() if not k.startswith("@")})
             tt._ver = 0  # type: ignore[attr-defined]  # the location, not a read of it
             self.flow.effects.append(Eff(cond, "store", ast.Assign(targets=[tt], value=v), st))
             self._stored(tt)
+            self._invalidate(env, t)
+            if isinstance(t, ast.Attribute) and _plain_chain(t) and not any(isinstance(x, ast.Subscript) for x in ast.walk(t)):
+                try:
+                    env["@" + ast.unparse(t)] = v
+                except Exception:
+                    pass
         else:
             raise AnalysisError(f"symflow: unsupported assignment target {type(t).__name__} at {self.fn.loc(st)}")
+
+
+def _chain_root(n: ast.AST) -> str:
+    while isinstance(n, (ast.Attribute, ast.Subscript)):
+        n = n.value
+    return n.id if isinstance(n, ast.Name) else ""
 
 
 def _plain_chain(n: ast.AST) -> bool:
